@@ -8,6 +8,7 @@ import (
 	"io"
 	"log"
 	"net"
+	"os"
 	"net/http"
 	"net/http/httptest"
 	"net/url"
@@ -181,7 +182,20 @@ func c12ExecD(in []string) []string {
 			first = false
 			return &http.Response{StatusCode: 200, Body: io.NopCloser(strings.NewReader("an exchange before")), Request: req}, nil
 		}
-		return &http.Response{StatusCode: 200, Status: "200 OK", Proto: "HTTP/1.1", ProtoMajor: 1, ProtoMinor: 1, Body: u, Request: req}, nil
+		resp := &http.Response{StatusCode: 200, Status: "200 OK", Proto: "HTTP/1.1", ProtoMajor: 1, ProtoMinor: 1, Body: u, Request: req, Header: http.Header{}}
+		// what else the response says makes no difference to what is owed to its body
+		switch c10Pick(in, 1<<12) >> 4 % 5 {
+		case 1:
+			resp.Close = true
+			resp.Header.Set("Connection", "close")
+		case 2:
+			resp.Close, resp.Proto, resp.ProtoMinor = true, "HTTP/1.0", 0
+		case 3:
+			resp.ContentLength = int64(len(u.rest))
+		case 4:
+			resp.ContentLength, resp.TransferEncoding = -1, []string{"chunked"}
+		}
+		return resp, nil
 	})
 	var per []string
 	var got []byte
@@ -372,6 +386,34 @@ const c12Chunk = "a"
 // c12Watchdog is far beyond every deadline the generator uses (tens of milliseconds).
 const c12Watchdog = 3 * time.Second
 
+// c12SrcErr: what a failing source reports is its own error, which may wrap any of the errors a reader meets in
+// practice (a closed pipe or file, a reset connection, a cancelled context, an end of stream met too early by a
+// layer below): each of them is a failure of the upload.
+type c12SrcErr struct{ inner error }
+
+func (e c12SrcErr) Error() string   { return "c12-source-error: " + e.inner.Error() }
+func (e c12SrcErr) Unwrap() []error { return []error{errC12Src, e.inner} }
+
+func c12SrcFailure(reads int) error {
+	switch (reads / 2) % 8 {
+	case 1:
+		return c12SrcErr{io.ErrClosedPipe}
+	case 2:
+		return c12SrcErr{os.ErrClosed}
+	case 3:
+		return c12SrcErr{io.EOF}
+	case 4:
+		return c12SrcErr{net.ErrClosed}
+	case 5:
+		return c12SrcErr{context.Canceled}
+	case 6:
+		return io.ErrClosedPipe // the read end of a pipe somebody closed, as it is
+	case 7:
+		return c12SrcErr{io.ErrUnexpectedEOF}
+	}
+	return errC12Src
+}
+
 // c12Src is an upload source: `reads` chunks, then EOF or an error; counts its Close calls.
 type c12Src struct {
 	failedOnce bool
@@ -398,7 +440,7 @@ func (s *c12Src) Read(p []byte) (int, error) {
 			}
 			s.failedOnce = true
 		}
-		return 0, errC12Src
+		return 0, c12SrcFailure(s.spec.reads)
 	}
 	return 0, io.EOF
 }
@@ -642,12 +684,20 @@ func (w *c12Wire) RoundTrip(req *http.Request) (*http.Response, error) {
 	if ct == "" {
 		hdr = http.Header{}
 	}
-	return &http.Response{StatusCode: status, Status: strconv.Itoa(status) + " " + http.StatusText(status), Proto: "HTTP/1.1", ProtoMajor: 1, ProtoMinor: 1,
-		Header: hdr, Body: b, ContentLength: -1, Request: req}, nil
+	resp := &http.Response{StatusCode: status, Status: strconv.Itoa(status) + " " + http.StatusText(status), Proto: "HTTP/1.1", ProtoMajor: 1, ProtoMinor: 1,
+		Header: hdr, Body: b, ContentLength: -1, Request: req}
+	switch w.opts.connClose {
+	case 1:
+		resp.Close = true
+		hdr.Set("Connection", "close")
+	case 2:
+		resp.Close, resp.Proto, resp.ProtoMinor = true, "HTTP/1.0", 0
+	}
+	return resp, nil
 }
 
 // c12RealServer answers like the plan says, over a real socket.
-func c12RealServer(p *c12Plan, release chan struct{}) *httptest.Server {
+func c12RealServer(p *c12Plan, connClose bool, release chan struct{}) *httptest.Server {
 	return httptest.NewServer(http.HandlerFunc(func(rw http.ResponseWriter, r *http.Request) {
 		_, _ = io.Copy(io.Discard, r.Body)
 		if p.respStall {
@@ -658,6 +708,9 @@ func c12RealServer(p *c12Plan, release chan struct{}) *httptest.Server {
 			return
 		}
 		rw.Header().Set("Content-Type", "application/octet-stream")
+		if connClose {
+			rw.Header().Set("Connection", "close")
+		}
 		total := p.respChunks * len(c12Chunk)
 		switch p.respTerm {
 		case 'e':
@@ -699,6 +752,8 @@ type c12Opts struct {
 	method, contentType                                             string
 	status, buffered                                                int
 	ownFileType                                                     bool
+	// how the response speaks of its connection: nothing | Connection: close | HTTP/1.0 (draining is owed all the same)
+	connClose int
 }
 
 func c12OptsOf(in []string) c12Opts {
@@ -708,7 +763,7 @@ func c12OptsOf(in []string) c12Opts {
 		method:      []string{"POST", "PUT", "PATCH", "DELETE", "POST", "post", "GET", "OPTIONS"}[(h>>6)%8],
 		contentType: []string{"application/octet-stream", "application/octet-stream; charset=utf-8", "APPLICATION/Octet-Stream", ""}[(h>>9)%4],
 		status:      []int{200, 200, 201, 202, 400, 404, 500, 503}[(h>>11)%8],
-		buffered:    (h >> 14) % 3, ownFileType: (h>>16)%2 == 1,
+		buffered:    (h >> 14) % 3, ownFileType: (h>>16)%2 == 1, connClose: (h >> 17) % 3,
 	}
 }
 
@@ -781,7 +836,7 @@ func c12ExecF(in []string) []string {
 			host = l.Addr().String()
 			_ = l.Close()
 		} else {
-			srv = c12RealServer(p, release)
+			srv = c12RealServer(p, opts.connClose == 1, release)
 			u, _ := url.Parse(srv.URL)
 			host = u.Host
 		}
@@ -1152,7 +1207,7 @@ func c12Origin(err error) string {
 		return "gr"
 	case strings.Contains(msg, "c12-read"), strings.Contains(msg, "c12-body-error"):
 		return "gb"
-	case errors.Is(err, errC12Src), errors.Is(err, io.ErrUnexpectedEOF) && !strings.Contains(msg, "c12-"):
+	case errors.Is(err, errC12Src), (errors.Is(err, io.ErrUnexpectedEOF) || errors.Is(err, io.ErrClosedPipe)) && !strings.Contains(msg, "c12-"):
 		return "gs"
 	case errors.Is(err, errC12Tr):
 		return "gt"
